@@ -26,7 +26,7 @@ class Mapping:
     def logical_address(self, value: int) -> int:
         bank = value // self.mask
 
-        return (bank + self.bank_range[0]) << 16 | (self.mask & 0xFFFF) + value % self.mask
+        return (bank + self.bank_range[0]) << 16 | self.address_range[0] + value % self.mask
 
 
 class Bus:
